@@ -1,12 +1,12 @@
 (* Run/C16.v — Sx codec around Model/Jobserver.v.
    leg "accept": case = ( k ( ev ... ) )     the trace recorded from the real `Client`
                  result = ( ok STATE ) | ( rejected index STATE )
-   leg "det":    case = ( k ( op ... ) )     result = ( ( ( ev ... ) ( pool nheld nrunning npending ) ) ... ) one per op
+   leg "det":    case = ( k ( op ... ) )     result = ( ( ( ev ... ) ( pool nheld nrunning npending ndraining ) ) ... ) one per op
    leg "mt":     case = anything             result = ( accepts )   (the python side feeds the observed trace to "accept")
    ev    = ( request r ) ( helper_acquire ) ( deliver ) ( receive r ) ( cancel r ) ( drop_held r ) ( start r )
-           ( spawn_fail r ) ( exit r ok ) ( drop_running r ) ( orphan_exit r )
-   op    = ( req r kind ) ( poll ) ( wait r ) ( drop r )
-   STATE = ( pool reqs hand nqueue ngone nslots nheld nrunning norphans ) *)
+           ( spawn_fail r ) ( exit r ok ) ( drop_running r ) ( orphan_exit r ) ( done r )
+   op    = ( req r kind ) ( poll ) ( wait r ) ( finish r ) ( drop r )
+   STATE = ( pool reqs hand nqueue ngone nslots nheld nrunning norphans ndraining ) *)
 From Coq Require Import List NArith Bool.
 From Coq Require String.
 Import String.StringSyntax.
@@ -30,6 +30,7 @@ Definition dec_ev (x : sx) : option event :=
       else if is_sym "spawn_fail" t then Some (SpawnFail r)
       else if is_sym "drop_running" t then Some (DropRunning r)
       else if is_sym "orphan_exit" t then Some (OrphanExit r)
+      else if is_sym "done" t then Some (Done r)
       else None
   | SL [t; SN r; SN b] =>
       if is_sym "exit" t then Some (Exit r (negb (b =? 0))) else None
@@ -58,22 +59,26 @@ Definition enc_ev (e : event) : sx :=
   | Exit r ok => SL [sym "exit"; SN r; sbool ok]
   | DropRunning r => SL [sym "drop_running"; SN r]
   | OrphanExit r => SL [sym "orphan_exit"; SN r]
+  | Done r => SL [sym "done"; SN r]
   end.
 
 Definition enc_st (s : st) : sx :=
   SL [SN (pool s); SN (reqs s); sbool (hand s); snat (length (queue s)); snat (length (gone s));
-      snat (length (slots s)); snat (length (held s)); snat (length (running s)); snat (length (orphans s))].
+      snat (length (slots s)); snat (length (held s)); snat (length (running s)); snat (length (orphans s));
+      snat (length (draining s))].
 
 (* what the deterministic harness can read off the real objects: tokens in the pipe, `Acquired`s it keeps,
    live `Child` futures, futures still waiting *)
 Definition enc_obs (s : st) : sx :=
-  SL [SN (pool s); snat (length (held s)); snat (length (running s)); snat (length (pending s))].
+  SL [SN (pool s); snat (length (held s)); snat (length (running s)); snat (length (pending s));
+      snat (length (draining s))].
 
 Definition dec_op (x : sx) : option sop :=
   match x with
   | SL [t] => if is_sym "poll" t then Some OPoll else None
   | SL [t; SN r] =>
       if is_sym "wait" t then Some (OWait r)
+      else if is_sym "finish" t then Some (OFinish r)
       else if is_sym "drop" t then Some (ODrop r)
       else None
   | SL [t; SN r; SN k] => if is_sym "req" t then Some (OReq r k) else None
@@ -103,12 +108,43 @@ Definition run_accept (x : sx) : sx :=
   | _ => err "bad case"
   end.
 
+(* `done r` (the request's pipes reached EOF) moves no token and races with the helper thread's events in the
+   real run: both sides list the `done`s of one step after its other events *)
+Definition is_done (e : event) : bool := match e with Done _ => true | _ => false end.
+Definition done_last (es : list event) : list event :=
+  filter (fun e => negb (is_done e)) es ++ filter is_done es.
+
 Definition run_det (x : sx) : sx :=
   match x with
   | SL [SN k; SL ops] =>
       match dec_ops ops with
-      | Some os => SL (map (fun ds => SL [SL (map enc_ev (fst ds)); enc_obs (snd ds)]) (script [] (init k) os))
+      | Some os => SL (map (fun ds => SL [SL (map enc_ev (done_last (fst ds))); enc_obs (snd ds)]) (script [] (init k) os))
       | None => err "bad op"
+      end
+  | _ => err "bad case"
+  end.
+
+(* leg "env": case = ( ncpus ( kind arg ) burst ... )   kind = none | fifo tokens | fds open | garbage
+   result = ( limited pool granted_at_once empty_acquireds ) for the client `Client::new()` builds *)
+Definition dec_mf (x : sx) : option makeflags :=
+  match x with
+  | SL [t; SN a] =>
+      if is_sym "none" t then Some MfNone
+      else if is_sym "fifo" t then Some (MfFifo a)
+      else if is_sym "fds" t then Some (MfFds (negb (a =? 0)))
+      else if is_sym "garbage" t then Some MfGarbage
+      else None
+  | _ => None
+  end.
+
+Definition run_env (x : sx) : sx :=
+  match x with
+  | SL (SN ncpus :: mf :: SN burst :: _) =>
+      match dec_mf mf with
+      | Some m =>
+          let c := client_new ncpus m in
+          SL [sbool (c_limited c); SN (c_tokens c); SN (granted_at_once c burst); SN (empty_acquireds c burst)]
+      | None => err "bad makeflags"
       end
   | _ => err "bad case"
   end.
@@ -117,4 +153,5 @@ Definition dispatch (leg : list N) (x : sx) : sx :=
   if bytes_eqb leg (bs "accept") then run_accept x
   else if bytes_eqb leg (bs "det") then run_det x
   else if bytes_eqb leg (bs "mt") then SL [sym "accepts"]
+  else if bytes_eqb leg (bs "env") then run_env x
   else err "unknown leg".
